@@ -31,7 +31,7 @@ def run(ctx, progs, tag="sema"):
     isema = C.run_impl(ctx, "sema", lines, tag=tag + "-isema")
     have_model = ctx.lake_ok
     idx = [i for i, a in enumerate(ast) if not a.startswith("SYNTAX") and not a.startswith("PANIC")
-           and not a.startswith("CRASH")]
+           and not a.startswith(("CRASH", "HANG"))]
     msema = {}
     if have_model:
         out = C.run_model(ctx, "sema", [ast[i] for i in idx], tag=tag + "-msema")
